@@ -59,7 +59,15 @@ public:
     {
         T const value = std::generate_canonical<T, std::numeric_limits<T>::digits>(generator);
 
-        auto const iterator = std::lower_bound(weight_sums.begin(), weight_sums.end(), value);
+        // select the first channel whose cumulative weight is larger than `value`; a channel with
+        // weight zero has the same cumulative weight as its predecessor and is never selected
+        auto iterator = std::upper_bound(weight_sums.begin(), weight_sums.end(), value);
+
+        if (iterator == weight_sums.end())
+        {
+            // can only happen if `value` is one, see stackoverflow.com/questions/25668600
+            iterator = std::lower_bound(weight_sums.begin(), weight_sums.end(), value);
+        }
 
         I const result = std::distance(weight_sums.begin(), iterator);
 
